@@ -35,6 +35,8 @@ func c03ctx() []gen.Ctx {
 		tmpl("for-closures", 1, `(begin (def fs []) (for [(def i 0) (< i 2) (set i (+ i 1))] (let [x i] (set fs (append fs (fn [] $1))))) (map (fn [g] (g)) fs))`),
 		tmpl("tail-loop", 1, `(begin (defn lp [n x] (cond (== n 0) $1 (lp (- n 1) (+ x 1)))) (lp 2 #))`),
 		tmpl("tail-loop-closure", 1, `(begin (defn lp [n x acc] (cond (== n 0) (map (fn [g] (g)) acc) (lp (- n 1) (+ x 1) (append acc (fn [] $1))))) (lp 2 # []))`),
+		tmpl("tail-first-arm-in-let", 1, `(begin (defn lp2 [n x] (let [q n] (cond (> n 0) (lp2 (- n 1) (+ x 1)) $1))) (let [r (lp2 2 #)] (list r x y)))`),
+		tmpl("tail-first-arm-in-newscope", 1, `(begin (defn lp3 [n y] (newScope (cond (> n 0) (lp3 (- n 1) (+ y 1)) (== n 0) $1 0))) (begin (def r2 (lp3 2 #)) (list r2 x y ((fn [] (list x y))))))`),
 		tmpl("passed", 1, `((fn [g x] (g)) (fn [] $1) #)`),
 		tmpl("stored", 1, `(begin (def st [(fn [] $1)]) ((fn [x] ((aget st 0))) #))`),
 		tmpl("inner-set", 1, `(begin ((fn [] (set x #))) $1)`),
@@ -62,7 +64,7 @@ func init() {
 	engine.Register(&engine.Check{
 		ID:    "C03",
 		Level: "exploration",
-		Rule: "scope skeletons over the name pool {x,y}: chains of 27 contexts (functions called immediately / returned / stored / passed, defn inside functions, let, letseq, newScope, for, tail loops, " +
+		Rule: "scope skeletons over the name pool {x,y}: chains of 29 contexts (functions called immediately / returned / stored / passed, defn inside functions, let, letseq, newScope, for, tail loops, " +
 			"sibling closures sharing a variable, one creator called twice, caller-local decoys) to length 3 (thorough 4) over 6 leaves that read or write x and y; every binding site binds a distinct integer; " +
 			"value compared with the reference evaluator; distinct_nontrivial = distinct (shape, value) pairs",
 		Assumptions: []string{"R1's textbook lexical scoping is the oracle; bindings are integers only (the re-def type rule is not exercised)"},
